@@ -42,6 +42,12 @@ def immutable_type(tp, seen):
             p = tp.__dataclass_params__
             hints = typing.get_type_hints(tp)
             return p.frozen and all(immutable_type(hints[f.name], seen) for f in dataclasses.fields(tp))
+        if hasattr(tp, "__bound__") and type(tp).__name__ == "PhantomMeta":
+            # a phantom type's instances are the values of its BOUND that satisfy the predicate (isinstance goes through
+            # __instancecheck__), whatever the class nominally derives from: every component of the bound must be immutable
+            b = tp.__bound__
+            parts = typing.get_args(b) if typing.get_origin(b) in (types.UnionType, typing.Union) else (b if isinstance(b, tuple) else (b,))
+            return all(isinstance(c, type) and issubclass(c, IMMUTABLE_LEAVES) for c in parts)
         return issubclass(tp, IMMUTABLE_LEAVES)
     return False
 
